@@ -30,7 +30,8 @@ package certloader
 //@   fresh ret0
 //@
 //@ func parseCertificatesDer
-//@   property C07
+//@   property C07 C11
+//@   nopanic
 //@   ensures @leaf_is_first ret1 == nil ==> ret0 != nil && ret0.Leaf != nil && len(ret0.Certificates) >= 1 && ret0.Leaf == ret0.Certificates[0]
 //@   ensures @no_nil_certificates ret1 == nil ==> forall(i, 0, len(ret0.Certificates), ret0.Certificates[i] != nil)
 //@   ensures @no_key_material_yet ret1 == nil ==> ret0.PgpKey == nil && ret0.PrivateKey == nil
